@@ -120,9 +120,10 @@ def load_harness(module, name):
         codes = h.setup() or []
         if h.kind == 'sched':
             _sched.install()
-            _sched.trace_codes(codes)
+        h._codes = list(codes)
         h._warm = set()
         _harness_cache[key] = h
+    _sched.set_traced(h._codes)
     return h
 
 
@@ -166,6 +167,8 @@ def explore_job(job):
         gc.collect()
         gc.freeze()
     stack = [list(p) for p in job['prefixes']]
+    dbg = os.environ.get('VERIF_DEBUG_DIVERGENCE')
+    dbg_traces = {}
     budget = job['budget']
     tlimit = _sched.REAL.perf_counter() + job.get('tbudget', 5.0)
     res = dict(execs=0, nodes=0, nontrivial=0, outcomes=collections.Counter(), violations={},
@@ -173,8 +176,20 @@ def explore_job(job):
     first = True
     while stack and res['execs'] < budget and (_sched.REAL.perf_counter() < tlimit or res['execs'] == 0):
         prefix = stack.pop()
-        ex, r = run_schedule(h, cfg, prefix)
+        ex, r = run_schedule(h, cfg, prefix, record='alts' if dbg else False)
+        if dbg:
+            dbg_traces[tuple(r.choices)] = r.trace
         if r.error is not None and r.error[0] == 'replay-divergence':
+            if os.environ.get('VERIF_DEBUG_DIVERGENCE'):
+                for ch, tr in dbg_traces.items():
+                    if list(ch[:len(prefix) - 1]) == prefix[:-1] and not any(ch[len(prefix) - 1:]):
+                        print('DIVERGENCE-DEBUG original parent', tr[len(prefix) - 4:len(prefix) + 1], file=sys.stderr, flush=True)
+                for k in range(3):
+                    ex2, r2 = run_schedule(h, cfg, prefix[:-1], record='alts')
+                    print('DIVERGENCE-DEBUG parent rerun', k, len(r2.points), r2.points[len(prefix) - 1:len(prefix) + 1],
+                          r2.trace[len(prefix) - 3:len(prefix) + 1], file=sys.stderr, flush=True)
+                ex2, r2 = run_schedule(h, cfg, prefix, record=True)
+                print('DIVERGENCE-DEBUG child rerun', r2.error, r2.trace[-4:], file=sys.stderr, flush=True)
             raise _sched.EngineError(f'replay divergence in {h.name} {cfg}: {r.error[1]} prefix={prefix}')
         res['execs'] += 1
         res['nodes'] += max(0, len(r.points) - len(prefix)) + (1 if not prefix else 0)
